@@ -93,7 +93,7 @@ TEXT = {
     "C13": {
         "text": "Exploration, exhaustive for the parameter cube: logs of 0..6 (12 in thorough) entries in the metadata and the message store, held by the writer, by replicas fed entry by entry, in one batch, in mixed batches and after reopening; for every log EVERY (since, until, reverse) "
                 "with bounds in {nil, each entry, unknown id} is listed through ListEvents and compared with the inclusive range of the causal order; the RPC layer (GroupMetadataList/GroupMessageList with until_now, parameter-consistency errors) is driven on a service instance.",
-        "note": "Single-writer logs (causal order = write order).",
+        "note": "Single-writer logs (causal order = write order) plus one forked two-writer log per store, where the reference is the full listing itself (equal on both replicas, consistent with causality) and every range must be a contiguous slice of it.",
         "technique": "runtime monitoring: reference range oracle over the complete (since, until, reverse) cube on real replicated logs",
     },
     "C17": {
@@ -112,7 +112,7 @@ TEXT = {
     "C12": {
         "text": "Exploration: every single-bit flip, field removal, group-type substitution and cross-group field swap of random invitations, plus invitations forged from nothing but the public replication descriptor, is decoded, classified (protected part changed or not) and handed to the real GroupJoin on an account group; "
                 "the identity used after an honest join is compared with the account identity; replication descriptors of groups of all types are searched for the secret, tried against every metadata envelope, message header and payload of a session of the full group, and compared by access-controller and log address.",
-        "note": "Manipulations of parts the statement does not protect (link key signature, extra fields) are run for no-panic only.",
+        "note": "Manipulations of parts the statement does not protect (link key signature, extra fields) are run for no-panic only. A second unit enumerates datastore faults while the identity for a joined group is created: the account must never fall back to its account-level keys.",
         "technique": "runtime monitoring: accept/refuse oracle over an exhaustive single-bit and field manipulation catalogue; descriptor-opens-nothing oracle",
     },
     "C15": {
